@@ -532,13 +532,19 @@ public:
     return slot ? slot : _create_stack_slot(work_reg);
   }
 
+  //! Creates a memory operand that addresses the home slot of `work_reg` (the slot is created if necessary).
   [[nodiscard]]
-  inline BaseMem work_reg_as_mem(RAWorkReg* work_reg) noexcept {
-    (void)get_or_create_stack_slot(work_reg);
-    return BaseMem(OperandSignature::from_op_type(OperandType::kMem) |
-                   OperandSignature::from_mem_base_type(_sp.reg_type()) |
-                   OperandSignature::from_bits(OperandSignature::kMemRegHomeFlag),
-                   work_reg->virt_id(), 0, 0);
+  inline Error work_reg_as_mem(Out<BaseMem> out, RAWorkReg* work_reg) noexcept {
+    // The slot is dereferenced when the operand is rewritten, it must exist if the operand does.
+    if (ASMJIT_UNLIKELY(!get_or_create_stack_slot(work_reg))) {
+      return make_error(Error::kOutOfMemory);
+    }
+
+    out = BaseMem(OperandSignature::from_op_type(OperandType::kMem) |
+                  OperandSignature::from_mem_base_type(_sp.reg_type()) |
+                  OperandSignature::from_bits(OperandSignature::kMemRegHomeFlag),
+                  work_reg->virt_id(), 0, 0);
+    return Error::kOk;
   }
 
   [[nodiscard]]
